@@ -35,6 +35,8 @@ class Inter:
         if self.size == 'S':
             if (i + {'q': 0, 'r': 0, 'd': 0, 'u': 1}[role]) % 3 == 2 and role in ('d', 'u'):
                 return P(None, head + b'metadata-only')  # an element may consist of metadata alone
+            if role == 'r' or (role == 'u' and i % 2 == 0):
+                return P(bytearray(head + b'\x00\xff'), bytearray(head) if (i % 2) else None)  # bytearray payloads are ByteTypes too
             return P(head + b'\x00\xff', head if (i % 2) else None)
         if self.size == 'F':
             # fragmenting payloads; the shape rotates with the element index so that boundary sizes occur:
